@@ -52,6 +52,21 @@ theorem runNE_spec (pr : Prog κ σ γ ρ Out) (now : Nat) (m : TtlMap κ σ) (g
   | remove k cont ih => simpa [Prog.runNE, Prog.run, ProgNoEvict] using ih (m.remove k) g
   | glob f cont ih => simpa [Prog.runNE, Prog.run, ProgNoEvict] using ih _ m (f g).1
 
+/-- Trace level: the driver's monitor `runOutsNE` reports `true` exactly when `NoEvict` holds, and
+its outputs are those of `runOuts`. -/
+theorem runOutsNE_spec (A : Analyzer κ σ γ ρ Pkt Out) (s : TtlMap κ σ × γ) (tr : List Pkt) :
+    (A.runOutsNE s tr).1 = (A.runOuts s tr).map (·.2) ∧
+      ((A.runOutsNE s tr).2 = true ↔ NoEvict A s tr) := by
+  induction tr generalizing s with
+  | nil => simp [Analyzer.runOutsNE, Analyzer.runOuts, NoEvict]
+  | cons p tr ih =>
+    obtain ⟨h1, h2⟩ := runNE_spec (A.prog p) (A.time p) s.1 s.2
+    have := ih (A.step s p).1
+    simp only [Analyzer.runOutsNE, Analyzer.runOuts, NoEvict, Analyzer.step, List.map_cons,
+      Bool.and_eq_true] at this ⊢
+    rw [h1, h2]
+    exact ⟨by rw [this.1], by rw [this.2]⟩
+
 /-- A local program never changes the global state. -/
 theorem local_glob_unchanged (P : κ → Prop) (pr : Prog κ σ γ ρ Out) (h : pr.Local P)
     (now : Nat) (m : TtlMap κ σ) (g : γ) : (pr.run now m g).2.1 = g := by
@@ -305,9 +320,9 @@ private theorem finish_local (rm : FlowKey) (hrm : Pk rm) (f : TcpFlow) (s : Seg
     · exact .remove _ _ hrm (.ret _)
     · exact .ret _
 
-private theorem withFlow_local (stored : FlowKey) (h1 : Pk stored) (isC : Bool)
-    (f : TcpFlow) (s : Seg) : (httpWithFlow H stored isC f s).Local Pk := by
-  unfold httpWithFlow
+private theorem body_local (stored : FlowKey) (h1 : Pk stored) (isC : Bool)
+    (f : TcpFlow) (s : Seg) : (httpBody H stored isC f s).Local Pk := by
+  unfold httpBody
   repeat (first
     | exact .ret _
     | exact finish_local Pk stored h1 _ _ _
@@ -316,6 +331,13 @@ private theorem withFlow_local (stored : FlowKey) (h1 : Pk stored) (isC : Bool)
     | (refine tryResp_local H hs Pk _ _ (fun q => ?_); cases q)
     | split
     | dsimp only)
+
+private theorem withFlow_local (stored : FlowKey) (h1 : Pk stored) (isC : Bool)
+    (f : TcpFlow) (s : Seg) : (httpWithFlow H stored isC f s).Local Pk := by
+  unfold httpWithFlow
+  split
+  · exact .set _ _ _ h1 (body_local H hs Pk stored h1 isC _ s)
+  · exact body_local H hs Pk stored h1 isC f s
 
 end
 
@@ -392,13 +414,12 @@ theorem kf_sharedHpack_witness :
       ((httpAnalyzer leaky).runOuts ({ cap := 10 }, 0)
         ([segA, segA', segB, segB'].filter (fun p => decide (httpConnOf p = httpConnOf segB)))).map
           (fun po => po.2.req) := by
-  decide
+  decide +kernel
 
 /-- Non-vacuity: the capacity hypothesis holds on a real four-packet, two-connection trace. -/
-example : NoEvict (httpAnalyzer leaky) ({ cap := 10 }, 0) [segA, segA', segB, segB'] := by
-  simp [NoEvict, ProgNoEvict, httpAnalyzer, httpProg, httpWithFlow, httpTryReq, httpFinish,
-    Analyzer.step, Prog.run, TtlMap.get, TtlMap.find?, TtlMap.insert, TtlMap.set, TtlMap.Fits,
-    segA, segA', segB, segB', leaky, fullData, fullData.insertSeqStable]
+example : NoEvict (httpAnalyzer leaky) ({ cap := 10 }, 0) [segA, segA', segB, segB'] :=
+  (runOutsNE_spec (httpAnalyzer leaky) ({ cap := 10 }, 0) [segA, segA', segB, segB']).2.1
+    (by decide +kernel)
 
 end Instances
 
